@@ -189,8 +189,9 @@ func hostNames(hs []*host.Host) []string {
 // registry of the processors of the current world (worlds run one at a time)
 type registry struct {
 	mu      sync.Mutex
-	running map[string][]*recProc // started and not stopped, per service name
+	running map[string][]*recProc // started and not stopped, per name the processor reports
 	built   int
+	last    *recProc // the processor built last
 }
 
 var cur = &registry{running: map[string][]*recProc{}}
@@ -199,6 +200,7 @@ func (r *registry) reset() {
 	r.mu.Lock()
 	r.running = map[string][]*recProc{}
 	r.built = 0
+	r.last = nil
 	r.mu.Unlock()
 }
 func (r *registry) started(p *recProc) {
@@ -234,11 +236,20 @@ func (r *registry) snapshot() map[string][]*recProc {
 
 type recBuilder struct{}
 
+// the processor reports the name proc.New hands to the builder (BuildParams.Name), as proc/tcp and proc/redis do
 func (recBuilder) Build(p proc.BuildParams) (proc.Proc, error) {
+	rp := &recProc{name: p.Name, cfg: p.Cfg, hosts: host.NewSet(p.Hosts...)}
 	cur.mu.Lock()
 	cur.built++
+	cur.last = rp
 	cur.mu.Unlock()
-	return &recProc{name: p.Name, cfg: p.Cfg, hosts: host.NewSet(p.Hosts...)}, nil
+	return rp, nil
+}
+
+func (r *registry) builtSoFar() (int, *recProc) {
+	r.mu.Lock()
+	defer r.mu.Unlock()
+	return r.built, r.last
 }
 
 // ---------------------------------------------------------------- observations (the JSON vocabulary of ConfigFlowGen / ConfigFlowTrace)
@@ -306,6 +317,7 @@ type world struct {
 	fwd     chan config.Event
 	pending chan struct{} // closed when the handler call in flight has returned (nil: none)
 	wins    map[string][]string
+	renamed map[string]bool // names involved in a processor that reports another name than its service's
 }
 
 func newWorld(svcs []string, static []string, evtCap int) (*world, error) {
@@ -322,7 +334,7 @@ func newWorld(svcs []string, static []string, evtCap int) (*world, error) {
 	if err != nil {
 		return nil, err
 	}
-	w := &world{svcs: svcs, store: st, evc: st.Subscribe(), fwd: make(chan config.Event), wins: map[string][]string{}}
+	w := &world{svcs: svcs, store: st, evc: st.Subscribe(), fwd: make(chan config.Event), wins: map[string][]string{}, renamed: map[string]bool{}}
 	w.ctl, err = controller.New(w.fwd)
 	if err != nil {
 		return nil, err
@@ -431,6 +443,16 @@ func (w *world) ctlStep() (evtObs, bool, error) {
 		return evtObs{}, false, fmt.Errorf("no event queued")
 	}
 	o := describeEvent(e)
+	builtBefore, _ := cur.builtSoFar()
+	defer func() {
+		// input class "service-name-rewritten": the processor built for this add-event reports another name than the
+		// service's, so the controller (table keyed by proc.Name(), looked up by the service name) loses track of it
+		if n, last := cur.builtSoFar(); o.T == "add" && n > builtBefore && last != nil && last.name != o.S {
+			for _, k := range []string{o.S, last.name} {
+				w.renamed[k] = true // never healed: the controller cannot reach this processor by the service's name again
+			}
+		}
+	}()
 	t := time.NewTimer(5 * time.Second)
 	defer t.Stop()
 	for _, x := range []config.Event{e, sentinel{}} {
@@ -553,6 +575,9 @@ func (w *world) converged() []svcVerdict {
 			continue
 		}
 		v := svcVerdict{S: s, Why: why, Store: tabObs[s], Proc: procObsAll[s], Wins: append([]string{}, w.wins[s]...)}
+		if w.renamed[s] {
+			v.Wins = append([]string{"service-name-rewritten"}, v.Wins...)
+		}
 		if len(v.Wins) > 0 {
 			v.First = v.Wins[0]
 		}
